@@ -234,7 +234,8 @@ def modifies_locs(ex, c, env, pre):
         try:
             if isinstance(tree, ast.Name):
                 v = o.env[tree.id]
-                out.add(v.loc)
+                if hasattr(v, "loc"):
+                    out.add(v.loc)
             else:
                 loc = ex.loc_of(tree, o)
                 # coarse: the top-level field of the root object
